@@ -1232,8 +1232,10 @@ def rule_coord_scan_skips_sds(ctx):
             def vis(nd, s2):
                 if nd[0] == "if" and nd[1] is not None:
                     for x in walk(nd[1], True):
-                        if x[0] == "bin" and x[1] in ("==", "!=") and kind(strip(x[2])) == "mem" and strip(x[2])[2] == "var_type" and int_name(x[3]) in ("IS_SDSVAR", "IS_CRDVAR"):
-                            tests.append((nd, x[1], int_name(x[3])))
+                        if x[0] == "bin" and x[1] in ("==", "!="):
+                            for a_, b_ in ((x[2], x[3]), (x[3], x[2])):
+                                if kind(strip(a_)) == "mem" and strip(a_)[2] == "var_type" and int_name(b_) in ("IS_SDSVAR", "IS_CRDVAR"):
+                                    tests.append((nd, x[1], int_name(b_)))
                 return True
 
             ast_walk(loop_body(lp), vis)
